@@ -100,12 +100,19 @@ func (actScen) Gen(r *Rng, cfg GenConfig) any {
 	for _, vn := range Subset(r, []string{"VERSION", "NAME", "TARGET"}, 1, 2) {
 		c.Prog.Vars = append(c.Prog.Vars, VarDef{Name: vn, Kind: "str", Args: []string{Pick(r, []string{"1.2.3", "hello world", "x", "a/b", "k=v", "=lead", "-X a=b -Y c=d", "trail=", "100%", "%s and %d"})}})
 	}
+	if r.Chance(1, 100) {
+		// a very long line near the top of the spokfile: everything after it must still be there
+		c.Prog.Vars = append([]VarDef{{Name: "BIGV", Kind: "str", Args: []string{"{BIG}"}}}, c.Prog.Vars...)
+	}
 	c.Prog.Layout = r.Intn(6)
 	c.Tree["a.txt"], c.Tree["b.txt"] = "1", "1"
 	for _, d := range Subset(r, []string{".gitignore", ".env", "sub/notes.txt", "out.bin", "sub/deep/spokfile.bak", "sub/.gitignore", "README"}, 1, 2) {
 		c.Tree[d] = Pick(r, []string{"decoy\n", "node_modules/\n", "UNRELATED=1\n"})
 		if strings.HasSuffix(d, ".env") {
 			c.Tree[d] = "UNRELATED=1\n"
+		}
+		if strings.HasSuffix(d, ".gitignore") && r.Chance(1, 10) {
+			c.Tree[d] = "build/\n# {BIG}\nnode_modules/\ndist/\n" // a very long line in the middle
 		}
 	}
 	c.Symlink = cfg.Prop == "C19" && r.Chance(1, 6)
@@ -203,7 +210,7 @@ func (actScen) Exec(w *World, cc any, prop string) *Result {
 	must(os.MkdirAll(filepath.Join(proj, "sub", "deep"), 0o755))
 	s := newProjState(w, &c.Prog, nil)
 	for _, f := range sortedKeys(c.Tree) {
-		s.write(f, c.Tree[f])
+		s.write(f, expandBig(c.Tree[f]))
 	}
 	text := c.Prog.Render()
 	switch c.Kind {
@@ -447,7 +454,7 @@ func (s *projState) judgeReport(res *Result, c *ActCase, ai int, a Act, obs *Obs
 			found := false
 			for _, l := range strings.Split(obs.Stdout, "\n") {
 				f := tableFields(l)
-				if len(f) >= 1 && f[0] == vd.Name && strings.Join(f[1:], " ") == strings.Join(tableFields(vd.Args[0]), " ") {
+				if len(f) >= 1 && f[0] == vd.Name && strings.Join(f[1:], " ") == strings.Join(tableFields(expandBig(vd.Args[0])), " ") {
 					found = true
 				}
 			}
